@@ -103,27 +103,40 @@ def check(facts, rep, tier, cfg):
         else:
             rep.bad("C11.R2", "reaction-fields", where, "delivered datagram is built from %s" % got)
         # any flow id: no test of the frame's id can bypass the opcode dispatch (a datagram's flow id is opaque to the multiplexor)
-        tr0 = it.tracer(b)
-        disp = [bb for bb, v in edge_literals_dominating(facts, b, tr0, bi, lambda g: {"Datagram"} if g.kind == "discr" else None)]
-        rets = set(x for x in range(len(b.blocks)) if b.term(x)["k"] == "Return")
-        idg = []
-        for D in disp[:1]:
-            for bb in range(len(b.blocks)):
-                if b.term(bb)["k"] != "SwitchInt" or not b.dominates(bb, D) or bb == D:
-                    continue
-                g = guard_at(facts, b, tr0, bb)
-                if g is None or g.kind == "discr":
-                    continue
-                roles = set(r for x in walk(g.pred) if x.kind == "bin" for a in (x[2], x[3]) for r in rules_c03.top_roles(it.expand(b, a)))
-                roles |= rules_c03.top_roles(it.expand(b, g.pred))
-                if "Frame.id" in roles and any(rets & b.reachable_from(t, cut={D}) for t, _ in g.edges):
-                    idg.append(bb)
+        def id_guards(xb, site):
+            xit = Inter(facts, root=xb.dp)
+            xtr = xit.tracer(xb)
+            disp = [bb for bb, v in edge_literals_dominating(facts, xb, xtr, site, lambda g: {"Datagram"} if g.kind == "discr" else None)]
+            rets = set(x for x in range(len(xb.blocks)) if xb.term(x)["k"] == "Return")
+            idg = []
+            for D in disp[:1]:
+                for bb in range(len(xb.blocks)):
+                    if xb.term(bb)["k"] != "SwitchInt" or not xb.dominates(bb, D) or bb == D:
+                        continue
+                    g = guard_at(facts, xb, xtr, bb)
+                    if g is None or g.kind == "discr":
+                        continue
+                    roles = set(r for x in walk(g.pred) if x.kind == "bin" for a in (x[2], x[3]) for r in rules_c03.top_roles(xit.expand(xb, a)))
+                    roles |= rules_c03.top_roles(xit.expand(xb, g.pred))
+                    if "Frame.id" in roles and any(rets & xb.reachable_from(t, cut={D}) for t, _ in g.edges):
+                        idg.append(bb)
+            return disp, idg
+        xb, site = b, bi
+        disp, idg = id_guards(xb, site)
+        if not disp:
+            # the delivery may live in a helper: look at the helper's call site inside the dispatcher
+            from an import CallIndex
+            for cb, cbi, ct in CallIndex(facts).callers.get(b.dp, []):
+                d2, g2 = id_guards(cb, cbi)
+                if d2:
+                    xb, site, disp, idg = cb, cbi, d2, g2
+                    break
         if not disp:
             rep.bad("C11.R2", "any-flow-id", where, "the Datagram delivery is not dominated by the opcode dispatch (anchor not recognised)")
         elif idg:
-            rep.bad("C11.R2", "any-flow-id", "%s (%s)" % (loc_str(b.term(idg[0])["loc"]), b.path),
+            rep.bad("C11.R2", "any-flow-id", "%s (%s)" % (loc_str(xb.term(idg[0])["loc"]), xb.path),
                     "the delivery of a datagram to the application is conditioned on the frame's flow id (guard at %s): datagrams with "
-                    "some flow ids (e.g. 0, which the client uses for stdio UDP) are dropped although the buffer has room" % loc_str(b.term(idg[0])["loc"]))
+                    "some flow ids (e.g. 0, which the client uses for stdio UDP) are dropped although the buffer has room" % loc_str(xb.term(idg[0])["loc"]))
         else:
             rep.ok("C11.R2", "any-flow-id", where, "no guard on the frame id dominates the delivery")
     rep.rule("C11.R3", "never blocking, never fatal: try_send only; table row Datagram; every valid Datagram decodes")
